@@ -334,3 +334,106 @@ for kind, numk in (('live', 'int'), ('freed', 'none')):
     key = '%s::Buffer.free#%s' % (FB, kind)
     REGISTRY[key] = REGISTRY.pop('%s::Buffer.free' % FB)
     REGISTRY[key].key = key
+
+
+# ---- Server._free_all_buffers (C17: "Buffer.free_all: one /b_free per allocated buffer number") ---------------
+from vf.pyvc.spec import Loop
+FSV = 'sc3/synth/server.py'
+BADDR = z3.Function('block_address', z3.IntSort(), z3.IntSort())
+BSIZE = z3.Function('block_size', z3.IntSort(), z3.IntSort())
+NBLK = z3.Int('blocks.len')
+
+
+def fab_getattr(eng, obj, name, st, node):
+    if obj.k == 'obj' and obj.oid == 'self._buffer_allocator':
+        if name == 'blocks':
+            def blocks(eng, args, kwargs, st, node):
+                def get(eng_, i, st_):
+                    tag = str(z3.simplify(i)).replace(' ', '')
+                    return V('ref', cls='ABlock', oid='block[%s]' % tag, extra={'index': i})
+                return [(st, V('seq', extra={'len': NBLK, 'facts': [NBLK >= 0], 'get': get}))]
+            return [(st, V('func', py=('spec', blocks)))]
+        if name == 'free':
+            def fr(eng, args, kwargs, st, node):
+                st.trace.append(('alloc-free', args[0]))
+                return [(st, NONE)]
+            return [(st, V('func', py=('spec', fr)))]
+    if obj.k == 'ref' and obj.cls == 'ABlock' and name in ('address', 'size'):
+        i = obj.extra['index']
+        return [(st, vint((BADDR if name == 'address' else BSIZE)(i)))]
+    if obj.k == 'ref' and obj.cls == 'MsgList' and name == 'append':
+        def app(eng, args, kwargs, st, node):
+            st.trace.append(('msg', args[0]))
+            return [(st, NONE)]
+        return [(st, V('func', py=('spec', app)))]
+    if obj.k == 'ref' and obj.oid == 'self' and name == 'addr':
+        return [(st, V('obj', oid='self.addr'))]
+    if obj.k == 'obj' and obj.oid == 'self.addr' and name == 'send_bundle':
+        def sb(eng, args, kwargs, st, node):
+            st.trace.append(('send_bundle', tuple(args)))
+            return [(st, NONE)]
+        return [(st, V('func', py=('spec', sb)))]
+    return None
+
+
+def fab_new_list(eng, items, st):
+    if items == [] and not [e for e in st.trace if e[0] == 'new-msg-list']:
+        st.trace.append(('new-msg-list',))
+        return V('ref', cls='MsgList', oid='the-bundle')
+    return None
+
+
+def fab_since(trace, ordinal):
+    idx = -1
+    for i, e in enumerate(trace):
+        if e[0] == 'loop-head' and e[1] == ordinal:
+            idx = i
+    return trace[idx + 1:] if idx >= 0 else None
+
+
+def fab_inner(c, L):
+    ev = fab_since(c.trace, 1)
+    if not ev:
+        return z3.BoolVal(True)
+    ev = [e for e in ev if e[0] in ('msg', 'alloc-free', 'send_bundle')]
+    if len(ev) != 1 or ev[0][0] != 'msg':
+        return z3.BoolVal(False)
+    m = ev[0][1]
+    blk = c.st.env['block']
+    ok = m.k == 'list' and m.items is not None and len(m.items) == 2 and m.items[0].k == 'str' \
+        and m.items[0].py == '/b_free' and m.items[1].k == 'int' and blk.k == 'ref'
+    if not ok:
+        return z3.BoolVal(False)
+    return m.items[1].z == BADDR(blk.extra['index']) + (L.i - 1)            # the (i-1)-th number of this block
+
+
+def fab_outer(c, L):
+    ev = fab_since(c.trace, 0)
+    if not ev:
+        return z3.BoolVal(True)
+    fr = [e for e in ev if e[0] == 'alloc-free']
+    if len(fr) != 1 or fr[0][1].k != 'int' or [e for e in ev if e[0] == 'send_bundle']:
+        return z3.BoolVal(False)
+    n_inner = c.st.env.get('__i1')                                            # passes of the inner loop, at its exit
+    if n_inner is None or n_inner.k != 'int':
+        return z3.BoolVal(False)
+    return z3.And(fr[0][1].z == BADDR(L.i - 1),                               # block i-1 returned to the allocator, once
+                  n_inner.z == BSIZE(L.i - 1))                                # and ALL its numbers got a message
+
+
+def fab_post(c):
+    sends = [e for e in c.trace if e[0] == 'send_bundle']
+    ok = (len(sends) == 1 and c.trace[-1] is sends[0] and len(sends[0][1]) == 2 and sends[0][1][0].k == 'none'
+          and sends[0][1][1].k == 'star' and sends[0][1][1].extra['seq'].k == 'ref'
+          and sends[0][1][1].extra['seq'].oid == 'the-bundle')               # ONE bundle, immediate, with all the messages
+    return z3.BoolVal(bool(ok))
+
+
+contract(FSV, 'Server._free_all_buffers', props=('C17', 'C16'), params={'self': 'self'},
+         requires=lambda c: z3.ForAll([z3.Int('k')], BSIZE(z3.Int('k')) >= 1),
+         ensures=[('one-bundle-with-one-b_free-per-number-of-every-block;every-block-returned', fab_post)],
+         loops={0: Loop(inv=fab_outer, kinds={'block': (lambda eng, n: V('obj', oid='havoc')), 'i': 'int'}),
+                1: Loop(inv=fab_inner, kinds={'i': 'int'})},
+         fields={'Server': {'_buffer_allocator': 'obj'}, 'ABlock': {}, 'MsgList': {}},
+         hooks={'getattr': fab_getattr, 'new_list': fab_new_list},
+         class_modules={'Server': FSV, 'ABlock': FSV, 'MsgList': FSV}, native=False)
